@@ -47,8 +47,25 @@ if os.path.exists(rp):
 metas = sorted(glob.glob(os.path.join(V, "seeded", "*", "meta.json")))
 if metas:
     print("\n### Independently seeded changes (seeded/<id>/), written by sub-agents that saw only the property text\n")
-    print("| id | change | needs | checks run -> verdict |")
-    print("|---|---|---|---|")
+    print("Columns: `when filed` = verdicts of the checks run when the change was confirmed (before any strengthening it caused);")
+    print("`final` = verdict of the owning check in the last full re-run (`tools/mutants.py --seeded`, mutants/RESULTS.json);")
+    print("`not run` there means the patch, written against an earlier /repo HEAD, no longer applies after later `fix:` commits.\n")
+    print("| id | change | needs | when filed | final (owning check) |")
+    print("|---|---|---|---|---|")
+    _res = json.load(open(os.path.join(V, "mutants", "RESULTS.json"))) if os.path.exists(os.path.join(V, "mutants", "RESULTS.json")) else {}
+    _tot = {}
     for m in metas:
         d = json.load(open(m))
-        print("| %s | %s | %s | %s |" % (os.path.basename(os.path.dirname(m)), d.get("what", "")[:160].replace("|", "/"), d.get("needs", "")[:140].replace("|", "/"), ", ".join("%s: %s" % (k, v["verdict"]) for k, v in d.get("checks", {}).items())))
+        sid = os.path.basename(os.path.dirname(m))
+        fin = _res.get("seeded/%s/patch.diff@%s" % (sid, d["property"]), {})
+        fv = fin.get("verdict", "-")
+        if fv == "MISSED":
+            others = [k.split("@")[1] for k, v in _res.items() if k.startswith("seeded/%s/" % sid) and v.get("verdict") == "caught"]
+            caught_by_other = [k for k, v in d.get("checks", {}).items() if v.get("verdict") == "caught" and k != d["property"]]
+            if others or caught_by_other:
+                fv = "MISSED (caught by %s)" % ", ".join(sorted(set(others + caught_by_other)))
+        rnd = {"A": 1, "B": 1, "C": 2, "D": 2, "E": 3, "F": 3, "G": 4, "H": 4}.get(sid.split("-")[1], 0)
+        _tot.setdefault(rnd, {}).setdefault(fv.split(" ")[0], 0)
+        _tot[rnd][fv.split(" ")[0]] += 1
+        print("| %s | %s | %s | %s | %s |" % (sid, d.get("what", "")[:160].replace("|", "/"), d.get("needs", "")[:140].replace("|", "/"), ", ".join("%s: %s" % (k, v["verdict"]) for k, v in d.get("checks", {}).items()), fv))
+    print("\nFinal verdicts of the owning check per round: " + "; ".join("round %d: %s" % (r, ", ".join("%s %d" % kv for kv in sorted(t.items()))) for r, t in sorted(_tot.items())))
